@@ -23,7 +23,7 @@ The change must need something specific to manifest — an unusual input, a part
 
 Deliver, inside the worktree directory:
   1. the source change itself (left applied in the working tree, uncommitted);
-  2. {wt}/SEED_DEMO.py — a standalone demonstration program (run as: cd {wt} && /venv/bin/python SEED_DEMO.py) that exits 0 when the property holds and exits 1 (printing what went wrong) when it is violated. It must exit 1 with your change applied and exit 0 without it (verify both: use `git stash` / `git stash pop`, or `git diff > /tmp/x.diff; git checkout -- gemato utils; ...; git apply /tmp/x.diff`). The demo must build its own temporary input (tempfile) and clean up after itself.
+  2. {wt}/SEED_DEMO.py — a standalone demonstration program (run as: cd {wt} && /venv/bin/python SEED_DEMO.py) that exits 0 when the property holds and exits 1 (printing what went wrong) when it is violated. It must exit 1 with your change applied and exit 0 without it (verify both with `git diff -- gemato utils > {wt}/x.diff; git checkout -- gemato utils; ...; git apply {wt}/x.diff; rm {wt}/x.diff` — do NOT use `git stash`: the stash is shared by all worktrees of the repository and other agents work in sibling worktrees). The demo must build its own temporary input (tempfile) and clean up after itself.
   3. {wt}/SEED_META.json — {{"property": "{p['id']}", "summary": "<one line: what the change does>", "needs": "<what specific input/sequence/state is needed for it to manifest>", "files": [...], "tests_before": "<pytest summary line>", "tests_after": "<pytest summary line>"}}
 
 Before finishing, confirm yourself: (a) pytest summary identical to the unmodified tree (29 failed, 1127 passed); (b) SEED_DEMO.py exits 1 with the change and 0 without. Leave the change applied. In your final message report the diff (git diff of gemato/ utils/), and the two confirmations. Do not write anything outside {wt} except temporary files you delete.""")
